@@ -180,6 +180,7 @@ inductive Op (V : Type) where
   | arrayAdd (i arr src : Nat)                       -- SetInput("<arr>.k", out): appends
   | arrayRemove (i arr idx : Nat)                    -- SetInput("<arr>.<idx>", nil)
   | read (i : Nat)                                   -- NodeOutput.Value()
+  | rejectedMessage (p : Nat)                        -- ApplyMessage(msg) with a message that does not decode
 
 def listSet {α : Type} : List α → Nat → α → Option (List α)
   | [], _, _ => none
@@ -223,6 +224,7 @@ def step? (F : Nat) (g : Graph V) : Op V → Option (Graph V × Log)
       (listModify (fun a => removeAt a idx) s.arrays arr).map fun ar =>
         (g.set i (.struct { s with arrays := ar, flag := true }), [])
   | .read i => some (Eval F g i)
+  | .rejectedMessage _ => none      -- parameter.Value.ApplyMessage returns the decode error before writing anything
 
 /-- a rejected call leaves the state alone -/
 def step (F : Nat) (g : Graph V) (op : Op V) : Graph V × Log := (step? F g op).getD (g, [])
